@@ -141,7 +141,7 @@ func main() {
 	if needDeep {
 		loadTier = "deep"
 	}
-	prog, err := Load(*repo, loadTier, overlay)
+	prog, err := LoadNormalized(*repo, loadTier, overlay)
 	if err != nil {
 		if *expect != "" || *expectOK {
 			fmt.Printf("SELFTEST not-applicable: %v\n", firstLine(err.Error()))
@@ -158,6 +158,9 @@ func main() {
 	}
 	for _, r := range prog.Renames {
 		fmt.Println("note: rename tracked: " + r)
+	}
+	for _, r := range prog.Normalized {
+		fmt.Println("note: normalised: " + r)
 	}
 	if *dump != "" {
 		dumpFacts(prog, *dump)
